@@ -3,6 +3,10 @@
 import json, sys
 pid, unit = sys.argv[1], sys.argv[2]
 hints = sys.argv[3] if len(sys.argv) > 3 else ""
+import os
+hf = f"/verif/tools/hints/{pid}.txt"
+if os.path.exists(hf):
+    hints = open(hf).read().strip() + ("\n" + hints if hints else "")
 props = {json.loads(l)["id"]: json.loads(l) for l in open("/verif/properties.jsonl")}
 p = props[pid]
 low = pid.lower()
